@@ -154,6 +154,12 @@ func c09body(first []string, maxLen int, withResume bool, variant string) func()
 		if !withResume {
 			return
 		}
+		if variant == "cut-inside" {
+			// the connection is lost inside a stanza (its start tag and part of its content arrived): that stanza was
+			// not received, it does not count
+			sc.send("<message from='peer@example.org' id='partial' type='chat'><body>cut he")
+			vrt.WaitIdle()
+		}
 		sc.close()
 		vrt.WaitIdle()
 		if variant == "handler-resume" {
@@ -308,6 +314,7 @@ func TestVerifC09(t *testing.T) {
 	}
 	for _, a := range c09alphabet {
 		scs = append(scs, hx.Scenario{Name: "refused-resumption/first=" + a, Opt: vrt.Options{Bound: 0}, Body: c09body([]string{a}, maxLen-1, true, "refused"), Verdict: c09verdict})
+		scs = append(scs, hx.Scenario{Name: "cut-inside-a-stanza/first=" + a, Opt: vrt.Options{Bound: 0}, Body: c09body([]string{a}, maxLen-1, true, "cut-inside"), Verdict: c09verdict})
 		scs = append(scs, hx.Scenario{Name: "resume-from-handler/first=" + a, Opt: vrt.Options{Bound: 0}, Body: c09body([]string{a}, maxLen-1, true, "handler-resume"), Verdict: c09verdict})
 		if c09isStanza(a) && a != "iq-resp" {
 			scs = append(scs, hx.Scenario{Name: "unmanaged-first/first=" + a, Opt: vrt.Options{Bound: 0}, Body: c09body([]string{a}, maxLen-1, true, "unmanaged-first"), Verdict: c09verdict})
